@@ -151,6 +151,25 @@ pub fn run(ctx: &Ctx) {
     let mut x = pf.clone();
     x[off] ^= 1;
     add("password decrypt", "corrupted chunk 1 of 3 (later chunk)", &pd_ok, env_pw("ppw"), Stdin::Null, with_in(&x), Some(pt3[..65536].to_vec()));
+    // ---------------- large inputs: a later chunk fails far into a file of many MiB ----------------
+    for (bi, big_len) in ctx.tier.pick(vec![17usize << 20], vec![1usize << 20, 17 << 20, 33 << 20, 65 << 20]).into_iter().enumerate() {
+        let big_pt = rng.bytes(big_len + 5);
+        let chunking = refspec::natural_chunking(big_pt.len(), 65536);
+        let nchunks = chunking.len();
+        let big_kf = refspec::encode_key_file(&alice.sk, &alice.pk, &bob.pk, &rng.arr32(), &rng.arr32(), &big_pt, &chunking).unwrap();
+        let big_pf = refspec::encode_pass_file(b"ppw", &rng.arr32(), &big_pt, &chunking);
+        for bad_chunk in [5usize, nchunks - 2] {
+            if bi > 0 && bad_chunk == 5 {
+                continue;
+            }
+            let mut x = big_kf.clone();
+            x[132 + bad_chunk * 65568 + 16 + 7] ^= 1;
+            add("decrypt", &format!("corrupted chunk {} of {} (later chunk, {} MiB input)", bad_chunk, nchunks, big_len >> 20), &d_ok, env_pw("bpw"), Stdin::Null, with_in(&x), Some(big_pt[..bad_chunk * 65536].to_vec()));
+            let mut x = big_pf.clone();
+            x[36 + bad_chunk * 65568 + 16 + 7] ^= 1;
+            add("password decrypt", &format!("corrupted chunk {} of {} (later chunk, {} MiB input)", bad_chunk, nchunks, big_len >> 20), &pd_ok, env_pw("ppw"), Stdin::Null, with_in(&x), Some(big_pt[..bad_chunk * 65536].to_vec()));
+        }
+    }
     // ---------------- key generate ----------------
     add("key generate", "empty name", &["key", "generate", "-o", "OUT", "--env-pass"], env_pw("gpw"), Stdin::Bytes(b"\n".to_vec()), vec![], None);
     add("key generate", "no name at all (stdin at EOF)", &["key", "generate", "-o", "OUT", "--env-pass"], env_pw("gpw"), Stdin::Null, vec![], None);
